@@ -8,10 +8,13 @@ Open Scope Z_scope.
 
 (* C05 reasons (found by the proof of Properties/C05.v; each class has a checked counterexample
    in Refuted/C05.v):
-   1 = F-ID-SUBMS: an _id (a store key, or the explicit _id of an insert_one) containing a
-       datetime that patch_datetime_awareness changes (sub-millisecond precision, or aware): the
-       store is keyed by the UNPATCHED _id while the stored document carries the truncated
-       one, so two ids equal after truncation coexist
+   1 = what is left of F-ID-SUBMS: an insert_one that SUCCEEDS with an explicit _id containing a
+       datetime that patch_datetime_awareness changes (sub-millisecond precision, or aware):
+       the library now keys the store by the normalised _id and returns it, so inserted_id is
+       not the _id as given, which the predicate asks for.  (The other half of the former bit -
+       a store key not stable under patch, two ids equal after truncation coexisting - was
+       repaired in the library; "every store key is stable under patch" is now proved as a
+       state invariant and no longer assumed.)
    2 = an _id that is not a well-formed value (a sub-document with a repeated field name:
        not a Python dict; model artefact, == is not reflexive on it)
    4 = F-ID-RETYPE: a stored document whose _id is == (Python) to the id it is stored under
@@ -23,26 +26,27 @@ Open Scope Z_scope.
    16 = the history creates a TTL index: any operation may then expire documents on the way,
        which the insert/update clauses of C05 (exact counts, untouched store on a rejected
        insert, positional preservation) do not account for; see C09
-   32 = insert_one with an explicit _id outside the model's store keys (aware datetime, or an
-       array inside a sub-document _id): the model answers EUnmodelled *)
+   (Bit 32 - insert_one with an explicit _id outside the model's store keys - is gone: an
+   aware datetime _id is now normalised before it is used as a key, and an _id with an array
+   inside a sub-document is rejected without touching the store, which is all the predicate
+   asks since no stored key can be BSON-equal to it.) *)
 Definition c05_reasons (ops : list op) (os : list obs) : Z :=
-  let key_reasons (k : value) : Z :=
-    Z.lor (if value_eqb (patch k) k then 0 else 1) (if wf_value k then 0 else 2) in
+  let wf_reason (k : value) : Z := if wf_value k then 0 else 2 in
   let entry_reasons (kd : value * value) : Z :=
-    Z.lor (key_reasons (fst kd))
+    Z.lor (wf_reason (fst kd))
           (match doc_id (snd kd) with
            | Some i => if py_eq (patch (fst kd)) i && negb (value_eqb i (patch (fst kd)))
                        then 4 else 0
            | None => 0
            end) in
   let step_reasons (oo : op * obs) : Z :=
-    let '(o, (_, s, _)) := oo in
+    let '(o, (r, s, _)) := oo in
     Z.lor (fold_right Z.lor 0 (map entry_reasons s))
           (match o with
            | OInsertOne (VDoc fs) =>
                match assoc "_id" fs with
-               | Some i => Z.lor (key_reasons i)
-                                 (if negb (id_modelled i) && negb (is_arr i) then 32 else 0)
+               | Some i => Z.lor (if is_ok r && negb (value_eqb (patch i) i) then 1 else 0)
+                                 (wf_reason i)
                | None => 0
                end
            | OFind (VDoc [("_id", v)]) None [] 0 0 =>
@@ -57,29 +61,97 @@ Definition c05_reasons (ops : list op) (os : list obs) : Z :=
 (* C06 reasons: 1 = F-MULTIKEY (an indexed field of a unique index holds or traverses an
    array), 2 = F-IDX-DEADEND (an indexed dotted path ends in a scalar parent: the matcher-based
    duplicate check produces no candidate there, C01 F-NULL-DEADEND), 4 = undecided (dead end
-   through an array), 8 = F-SPARSE-NULL (sparse index and an explicitly null field) *)
+   through an array), 8 = F-SPARSE-NULL (sparse index and an explicitly null field).
+   The next bits were added by the proof of C06_history (Refuted/C06.v has a checked
+   counterexample for each class):
+   16 = F-MULTIKEY, the case bit 1 misses: a non-numeric component of an indexed path steps
+       through an array holding a single sub-document ({a: [{b: 1}]} under a unique index on
+       "a.b": one candidate, not an array).  The duplicate check reads the new document with
+       get_value_by_dot, which raises KeyError there, and queries for null.
+   32 = the indexed path of a unique index ends with an empty component ("a." or ""):
+       iter_key_candidates then yields the parent document itself, so the re-query never
+       matches the value stored under the field named "".
+   64 = the value of an indexed field of a unique index is a sub-document with a field name
+       starting with '$' at its top level: the duplicate check re-queries with {field: value},
+       and the value is then read as an operator expression ({a: {$gt: 1}} twice) or rejected
+       as a mix of operators and fields.  The bit also covers a model-only class: a
+       sub-document value that is not a well-formed value (a repeated field name somewhere
+       inside: not a Python dict, not == to itself; checked counterexample), and a class
+       without a known counterexample: a value that is or contains a timezone-aware datetime
+       (stored documents are normalised to naive ones; == separates naive and aware datetimes
+       that BSON equality identifies).
+   128 = a unique index exists and some store key (_id) is not a well-formed value: a
+       sub-document with a repeated field name (model-only artefact, not a Python dict).  It is
+       not == to itself, so the rollback `del store[_id]` of a rejected insert finds nothing
+       to delete.
+   256 = some step of the history answers EUnmodelled: the model state is not meaningful
+       from there on (Collection._update keeps the new image in the store when the uniqueness
+       check raises anything but DuplicateKeyError, and the model does the same for its own
+       "unmodelled" outcome). *)
+Fixpoint c06_arr_traverse (parts : list string) (doc : value) {struct parts} : bool :=
+  match parts with
+  | [] => false
+  | p :: rest =>
+      match doc with
+      | VDoc fs => match assoc p fs with Some v => c06_arr_traverse rest v | None => false end
+      | VArr xs =>
+          match as_index p with
+          | Some i => match nth_z xs i with Some sub => c06_arr_traverse rest sub | None => false end
+          | None => true
+          end
+      | _ => false
+      end
+  end.
+
+(* index key values the duplicate check handles faithfully (arrays: see bit 1) *)
+Definition c06_value_ok (v : value) : bool :=
+  match v with
+  | VArr _ => false
+  | VDate _ (Some _) => false
+  | VDoc fs => wf_value v && negb (has_aware v) && negb (any_dollar fs)
+  | _ => true
+  end.
+
+Definition c06_path_reasons (sparse : bool) (p : string) (d : value) : Z :=
+  let parts := split_dots p in
+  let C := candidates parts d in
+  (if existsb (fun c => match c with Some (VArr _) => true | _ => false end) C
+      || Nat.ltb 1 (List.length C) then 1 else 0)
+  + (if dead_end parts d =? 1 then 2 else 0)
+  + (if dead_end parts d =? 2 then 4 else 0)
+  + (if sparse
+        && existsb (fun c => match c with Some VNull => true | _ => false end) C
+     then 8 else 0)
+  + (if c06_arr_traverse parts d then 16 else 0)
+  + (if ends_empty parts then 32 else 0)
+  + (if existsb (fun c => match c with
+                          | Some (VArr _) | None => false
+                          | Some v => negb (c06_value_ok v)
+                          end) C then 64 else 0).
+
 Definition c06_doc_reasons (info : value) (d : value) : Z :=
   fold_right Z.lor 0
     (flat_map (fun ni =>
        let i := snd ni in
        if idx_flag "unique" i then
-         map (fun p =>
-                let parts := split_dots p in
-                let C := candidates parts d in
-                (if existsb (fun c => match c with Some (VArr _) => true | _ => false end) C
-                    || Nat.ltb 1 (List.length C) then 1 else 0)
-                + (if dead_end parts d =? 1 then 2 else 0)
-                + (if dead_end parts d =? 2 then 4 else 0)
-                + (if idx_flag "sparse" i
-                      && existsb (fun c => match c with Some VNull => true | _ => false end) C
-                   then 8 else 0)) (idx_keys i)
+         map (fun p => c06_path_reasons (idx_flag "sparse" i) p d) (idx_keys i)
        else []) (index_specs info)).
 
+Definition c06_key_reasons (info : value) (s : list (value * value)) : Z :=
+  if existsb (fun ni => idx_flag "unique" (snd ni)) (index_specs info)
+     && existsb (fun kd => negb (wf_value (fst kd))) s
+  then 128 else 0.
+
+Definition c06_obs_reasons (ob : obs) : Z :=
+  match ob with
+  | (r, s, info) =>
+      Z.lor (fold_right Z.lor 0 (map (fun kd => c06_doc_reasons info (snd kd)) s))
+            (Z.lor (c06_key_reasons info s)
+                   (match r with Err EUnmodelled => 256 | _ => 0 end))
+  end.
+
 Definition c06_reasons (ops : list op) (os : list obs) : Z :=
-  fold_right Z.lor 0
-    (map (fun ob => match ob with
-                    | (_, s, info) => fold_right Z.lor 0 (map (fun kd => c06_doc_reasons info (snd kd)) s)
-                    end) os).
+  fold_right Z.lor 0 (map c06_obs_reasons os).
 (* C08 reasons: 1 = F-FAM-AFTER-PROJ (find_one_and_* with a projection: the returned image
    is projected after the write was applied, and a projection error is raised then).
    The next bits were added by the proof of C08_history (Refuted/C08.v has a checked
@@ -89,15 +161,18 @@ Definition c06_reasons (ops : list op) (os : list obs) : Z :=
        (expireAfterSeconds) exists, and either a stored document is expired at the current
        clock (expiry runs lazily at the start of the write and inside the unique checks, so
        the expired documents are removed although the write fails), or the write is of the
-       update kind, fails with DuplicateKeyError and a unique index exists (the new image may
-       itself be expired: the unique check then purges it and the rollback re-appends the old
-       document at the END of the store).
-   4 = F-UPDATE-NO-ROLLBACK: a single-document update / replace / find_one_and_update|replace
-       fails with an error other than DuplicateKeyError while a unique index exists.
-       Collection._update stores the new image, then runs the unique checks, and rolls back
-       only on DuplicateKeyError: any other exception of the check (an operator document
-       stored as an indexed value, a partialFilterExpression the matcher rejects, ...)
-       leaves the new image in the store.
+       update kind and a unique index exists (the new image may itself be expired: the unique
+       check then purges it and the rollback re-appends the old document at the END of the
+       store).  Since the library rolls back on every exception of the unique check (and no
+       longer on DuplicateKeyError only) this second class is no longer restricted to
+       DuplicateKeyError.
+   4 = model-undecided (was F-UPDATE-NO-ROLLBACK, repaired in the library: Collection._update
+       now rolls the stored image back whenever the unique check raises, and this is proved
+       for every error the model decides): a single-document update / replace /
+       find_one_and_update|replace whose outcome is EUnmodelled while a unique index exists.
+       When the unique check itself leaves the model (e.g. a partialFilterExpression with an
+       operator the matcher does not model) the model keeps the new image in its store; its
+       state is meaningless from there on.  Never set on a trace of the implementation.
    8 = F-FAM-AFTER-FIND: a find_one_and_update|replace with return_document=AFTER fails.
        The document is re-read after the write and the error of that read is raised
        (for instance an upserted _id that is an operator document).
@@ -147,13 +222,13 @@ Definition c08_ttl_step (x : ctx) (o : op) (ob : obs) : bool :=
   | Err e =>
       single_doc_write o && c08_has_ttl (x_idx x)
       && (c08_any_expired x
-          || (c08_update_kind o && err_eqb e EDup && c08_has_unique (x_idx x)))
+          || (c08_update_kind o && c08_has_unique (x_idx x)))
   | Ok _ => false
   end.
 Definition c08_norollback_step (x : ctx) (o : op) (ob : obs) : bool :=
   let '(r, _, _) := ob in
   match r with
-  | Err e => c08_update_kind o && negb (err_eqb e EDup) && c08_has_unique (x_idx x)
+  | Err e => c08_update_kind o && err_eqb e EUnmodelled && c08_has_unique (x_idx x)
   | Ok _ => false
   end.
 Definition c08_after_step (x : ctx) (o : op) (ob : obs) : bool :=
@@ -175,7 +250,83 @@ Definition c08_reasons (ops : list op) (os : list obs) : Z :=
   + (if c08_trace_any c08_norollback_step ctx0 ops os then 4 else 0)
   + (if c08_trace_any c08_after_step ctx0 ops os then 8 else 0)
   + (if c08_bad_key os then 16 else 0).
-Definition c09_reasons (ops : list op) (os : list obs) : Z := 0.
+(* C09 reasons (found by the proof of Properties/C09.v; Refuted/C09.v has a checked
+   counterexample for bits 1, 2, 4).  Bits 2, 4, 8 are evaluated per step on the index
+   information, store and clock observed BEFORE the step, and only matter while some TTL spec
+   is active (ttl_specs of that index information is not empty):
+   1 = an index is created under the name "_id_" (name="_id_", or the generated name of the key
+       [("_id", "")]): index_information() shows it under the key of the built-in _id index,
+       which the property skips, so a TTL index of that name expires documents unseen;
+   2 = F-TTL-REWRITE: while a TTL spec is active, an update_one / update_many / replace_one
+       that upserts, or under which some stored document would get an expired image (the image
+       of every stored document under the update is computed with the model's apply_update),
+       or a find_one_and_update|replace, or a bulk_write with an update/replace request.
+       The new image of a rewritten document may itself be expired: it stays in the store
+       until the next access although the operation read (and purged) the store; with a unique
+       index the uniqueness check purges it during the operation, so a document whose OLD
+       image was alive disappears.  An upsert may likewise store an expired document.  (The
+       find_one_and_*, bulk and upsert cases are excluded wholesale: conservative);
+   4 = F-TTL-INSERT-EXPIRED: an insert_one / insert_many / bulk insert of a document that is
+       already expired: it is stored and only removed by the next access; re-inserting the same
+       _id then succeeds and leaves an expired document under a key that existed before;
+   8 = a bulk_write with a delete request that reports write errors while a TTL spec is active.
+       No counterexample is known: the bit is conservative (the proof does not establish that the matcher never
+       raises a WriteError, which a failing delete request would turn into a captured error of a
+       batch that then has not read the store). *)
+Definition c09_idname_step (x : ctx) (o : op) (ob : obs) : bool :=
+  match o with
+  | OCreateIndex key _ _ _ _ name =>
+      String.eqb (match name with Some n => n | None => gen_index_name key end) "_id_"
+  | _ => false
+  end.
+Definition c09_ttl_active (x : ctx) : bool :=
+  match ttl_specs (x_idx x) with [] => false | _ => true end.
+Definition c09_bulk_rewrites (rs : list bulk_req) : bool :=
+  existsb (fun r => match r with BUpdate _ _ _ _ | BReplace _ _ _ => true | _ => false end) rs.
+Definition c09_rewrites (o : op) : bool :=
+  match o with
+  | OUpdate _ _ _ _ | OReplace _ _ _
+  | OFindAndModify _ _ _ (FamUpdate _ _ _) | OFindAndModify _ _ _ (FamReplace _ _ _) => true
+  | OBulk rs _ => c09_bulk_rewrites rs
+  | _ => false
+  end.
+Definition c09_bulk_inserted (rs : list bulk_req) : list value :=
+  flat_map (fun r => match r with BInsert d => [d] | _ => [] end) rs.
+Definition c09_inserted (o : op) : list value :=
+  match o with
+  | OInsertOne d => [d]
+  | OInsertMany ds _ => ds
+  | OBulk rs _ => c09_bulk_inserted rs
+  | _ => []
+  end.
+Definition c09_image_expired (x : ctx) (f u : value) : bool :=
+  existsb (fun kd => match apply_update (patch f) (patch u) false (x_now x) (snd kd) with
+                     | Ok d' => expired_any (x_now x) (x_idx x) d'
+                     | Err _ => false
+                     end) (x_store x).
+Definition c09_rewrite_step (x : ctx) (o : op) (ob : obs) : bool :=
+  c09_ttl_active x &&
+  match o with
+  | OUpdate f u _ upsert | OReplace f u upsert => upsert || c09_image_expired x f u
+  | _ => c09_rewrites o
+  end.
+Definition c09_insert_step (x : ctx) (o : op) (ob : obs) : bool :=
+  existsb (fun d => expired_any (x_now x) (x_idx x) (patch d)) (c09_inserted o).
+Definition c09_bulk_err_step (x : ctx) (o : op) (ob : obs) : bool :=
+  let '(r, _, _) := ob in
+  c09_ttl_active x &&
+  match o, r with
+  | OBulk rs _, Ok v =>
+      existsb (fun r => match r with BDelete _ _ => true | _ => false end) rs &&
+      match get_field "BulkWriteError" v with Some _ => true | None => false end
+  | _, _ => false
+  end.
+
+Definition c09_reasons (ops : list op) (os : list obs) : Z :=
+  (if c08_trace_any c09_idname_step ctx0 ops os then 1 else 0)
+  + (if c08_trace_any c09_rewrite_step ctx0 ops os then 2 else 0)
+  + (if c08_trace_any c09_insert_step ctx0 ops os then 4 else 0)
+  + (if c08_trace_any c09_bulk_err_step ctx0 ops os then 8 else 0).
 
 (* ---- shared by the C10 and C14 guards: does the operation create a TTL index; all the
    (key, document) entries of all the observed stores *)
@@ -205,10 +356,10 @@ Definition c10_reasons (ops : list op) (os : list obs) : Z :=
        is not a Python dict: a model artefact: store_set then appends instead of replacing);
    4 = the upsert stored a document under _id None (via {$set: {_id: None}} on a filter whose
        _id condition is an operator document): upserted_id None reads as "no upsert" and
-       matched_count is then 1;
-   8 = the upserted _id is a datetime with sub-millisecond precision or a timezone
-       ($currentDate on _id): the result carries the original value, the stored document the
-       truncated one *)
+       matched_count is then 1.
+   (Bit 8 - the upserted _id is a datetime with sub-millisecond precision or a timezone, the
+   result carrying the original value and the stored document the truncated one - is gone:
+   the library now keys the store by, and returns, the normalised _id.) *)
 Definition c13_reasons (ops : list op) (os : list obs) : Z :=
   (fix go (ops : list op) (os : list obs) (before : list (value * value)) (info : value) : Z :=
      match ops, os with
@@ -222,11 +373,6 @@ Definition c13_reasons (ops : list op) (os : list obs) : Z :=
               + (if forallb (fun kd => py_eq (fst kd) (fst kd)) before then 0 else 2)
               + (if existsb (fun kd => is_null (fst kd)) after
                     && negb (existsb (fun kd => is_null (fst kd)) before) then 4 else 0)
-              + (match r with
-                 | Ok v => match get_field "upserted_id" v with
-                           | Some u => if value_eqb (patch u) u then 0 else 8
-                           | None => 0 end
-                 | Err _ => 0 end)
             else 0)
            (go ops' os' after info')
      | _, _ => 0
@@ -236,17 +382,20 @@ Definition c13_reasons (ops : list op) (os : list obs) : Z :=
    1 = a TTL index is created in the history (expireAfterSeconds not None): documents expire
        at the start of an operation, which the store comparison sees as changes/removals;
    2 = F-ID-ALIAS, only when the history has a delete_one or a find_one_and_*: some stored
-       document's _id is not (structurally) the key it is stored under.  Happens for a
-       datetime _id with sub-millisecond precision or a tzinfo (the key is the raw value, the
-       document is patched) and for an update that rewrites _id with a ==-equal value
-       (1 -> 1.0 -> True).  delete_one / find_one_and_* address the document found by its
-       _id, and so may hit ANOTHER document (see Refuted/C14.v);
+       document's _id is not (structurally) the key it is stored under.  Happens for an
+       update that rewrites _id with a ==-equal value (1 -> 1.0 -> True): delete_one /
+       find_one_and_* address the document found by its _id (see Refuted/C14.v).  The other
+       source - a datetime _id with sub-millisecond precision or a tzinfo, stored under the
+       raw value while the document was patched, so that delete_one could hit ANOTHER
+       document - was repaired in the library (the key is the normalised _id); the bit is
+       evaluated on the observed store and needs no change for that;
    4 = a store key that is not == to itself: an _id sub-document with a repeated field name
        (not a Python dict; model-only artefact);
    8 = only when the history has a find_one_and_*: a store key that is an _id sub-document
        with a '$' field (the {_id: id} query of find_one_and_* is then an operator query and
-       does not find the target), an array, or a value changed by patch (sub-millisecond or
-       aware datetime inside the _id) *)
+       does not find the target), or an array.  (The third class - a key changed by patch:
+       a sub-millisecond or aware datetime inside the _id - is gone: the library keys the
+       store by the normalised _id, which is proved for the model in Proofs/C14Keys.v.) *)
 Definition c14_uses_id (o : op) : bool :=
   match o with ODelete _ false | OFindAndModify _ _ _ _ => true | _ => false end.
 Definition c14_is_fam (o : op) : bool :=
@@ -255,7 +404,6 @@ Definition c14_id_is_key (kd : value * value) : bool :=
   match doc_id (snd kd) with Some i => value_eqb i (fst kd) | None => false end.
 Definition c14_key_refl (kd : value * value) : bool := py_eq (fst kd) (fst kd).
 Definition c14_key_plain (kd : value * value) : bool :=
-  value_eqb (patch (fst kd)) (fst kd) &&
   match fst kd with VDoc fs => negb (any_dollar fs) | VArr _ => false | _ => true end.
 
 Definition c14_reasons (ops : list op) (os : list obs) : Z :=
